@@ -482,9 +482,9 @@ def run_lockstep(side: str, steps: t.Sequence[t.Dict[str, t.Any]], probe_open: b
                 if probe_open:
                     bad = _probe(s, side, mdl)
                     if bad:
+                        # recorded, but the history goes on: the consequences (a later call wrongly refused or
+                        # accepted) belong to other clauses
                         tr.add("open-set", f"{side}:refused-call-changed-operations-in-progress", f"{where}: {bad}")
-                        tr.diverged = True
-                        break
                 continue
             # accepted call
             tr.accepted_calls += 1
@@ -590,6 +590,11 @@ def _probe(s: t.Any, side: str, mdl: model.Model) -> str:
         want = dict(mdl.open)
     if got != want:
         return f"probes say {got}, model says {want}"
+    # a bind is possible exactly when nothing is in progress (documented for both sides)
+    can = sess.bind_allowed(s, side)
+    want_can = mdl.state != model.CLOSED and not mdl.open
+    if can is not want_can:
+        return f"bind possible: {can!r}, model says {want_can} (state {mdl.state}, in progress {dict(mdl.open)})"
     return ""
 
 
